@@ -71,6 +71,49 @@ macro_rules! space_pair_checks {
                         }
                     }
                 }
+                // points_along_line in the same measure: end points included, consecutive points no farther apart than the maximum, every
+                // point on the way from a to b (d(a,p) + d(p,b) = d(a,b)) in increasing distance from a
+                if !excluded && d > 0.0 && idx % 3 == 0 {
+                    for div in [2.6, 7.3] {
+                        let max = d / div;
+                        acc.evals += 1;
+                        match guard(|| sp.points_along_line(pa, pb, max, true).collect::<Vec<Point<f64>>>()) {
+                            Err(e) => acc.viol(format!("{} points_along_line panic", name), idx, || w(e)),
+                            Ok(pts) => {
+                                let tol = 1e-3 * scale;
+                                let mut bad: Option<String> = None;
+                                if pts.len() < 2 || sp.distance(pts[0], pa) > tol || sp.distance(pts[pts.len() - 1], pb) > tol {
+                                    bad = Some("end points are not included".into());
+                                } else {
+                                    let mut last = -1.0;
+                                    for (i, p) in pts.iter().enumerate() {
+                                        let (da, db) = (sp.distance(pa, *p), sp.distance(*p, pb));
+                                        if (da + db - d).abs() > 1e-3 * scale.max(1.0) * 10.0 {
+                                            bad = Some(format!("point {} is not on the way from a to b: d(a,p)+d(p,b)={} d={}", i, da + db, d));
+                                            break;
+                                        }
+                                        if da < last - tol {
+                                            bad = Some(format!("points are not in increasing distance from a at {}", i));
+                                            break;
+                                        }
+                                        last = da;
+                                        if i > 0 && sp.distance(pts[i - 1], *p) > max * (1.0 + 1e-9) + tol {
+                                            bad = Some(format!("consecutive points {} and {} are farther apart ({}) than the maximum {}", i - 1, i, sp.distance(pts[i - 1], *p), max));
+                                            break;
+                                        }
+                                    }
+                                }
+                                // and not absurdly many: about d / max steps
+                                if bad.is_none() && pts.len() as f64 > (d / max).ceil() + 3.0 {
+                                    bad = Some(format!("{} points for about {} steps", pts.len(), (d / max).ceil()));
+                                }
+                                if let Some(m) = bad {
+                                    acc.viol(format!("{} points_along_line is inconsistent with distance in the same measure", name), idx, || w(format!("max={} points={} : {}", max, pts.len(), m)));
+                                }
+                            }
+                        }
+                    }
+                }
                 // length of a 3-point line string = sum of segment distances
                 let mid = Point::new((a.0 + b.0) / 2.0, ((a.1 + b.1) / 2.0 + 7.0).clamp(-80.0, 80.0));
                 let ls = LineString::from(vec![pa, mid, pb]);
@@ -143,6 +186,7 @@ pub fn run(mut run: Run) -> i32 {
     let n = pts.len();
     run.extra.insert("lattice_points".into(), json!(n));
     let small = HaversineMeasure::new(1000.0);
+    let big_sphere = HaversineMeasure::new(24622000.0);
     run.stage("lattice-pairs", n * n, |idx, acc| {
         let (a, b) = (pts[idx / n], pts[idx % n]);
         let sep = ang_sep_deg(a, b);
@@ -153,6 +197,8 @@ pub fn run(mut run: Run) -> i32 {
         space_pair_checks!(acc, idx, "Rhumb", &Rhumb, a, b, 1.0);
         if idx % 3 == 0 {
             space_pair_checks!(acc, idx, "HaversineMeasure(r=1000)", &small, a, b, 1000.0 / 6371008.8);
+            // a sphere much larger than the Earth (Neptune), so that any leftover use of the default radius shows as too few points / too long steps
+            space_pair_checks!(acc, idx, "HaversineMeasure(r=24622000)", &big_sphere, a, b, 24622000.0 / 6371008.8);
             let mars = GeodesicMeasure::new(3396190.0, 0.00589) /* the parameter is named inverse_flattening but is handed to geographiclib as the flattening f */;
             space_pair_checks!(acc, idx, "GeodesicMeasure(mars)", &mars, a, b, 3396190.0 / 6378137.0);
         }
